@@ -6,7 +6,8 @@ statements need to know one form only:
   C2  x = a if c else x                   ->  if c: x = a
       x = x if c else b                   ->  if not c: x = b
   C3  x = []; for t in it: [tmp = e1;] x.append(e2)   ->  x = [e2' for t in it]
-  C4  x = []  followed by consecutive x.append(e)      ->  x = [e, ...]
+  C4  x = []  followed by x.append(e) statements (possibly interleaved with independent simple
+      statements on other names, e.g. a second accumulator)  ->  x = [e, ...]
       x = {}  followed by consecutive x['k'] = v        ->  x = {'k': v, ...}
   C5  `else:` after a branch that always leaves (raise/return/continue/break) is flattened
 Line numbers of the originals are kept on the rewritten nodes."""
@@ -70,16 +71,29 @@ def _block(stmts):
         # C4: literal followed by consecutive appends / item stores
         if x and isinstance(st.value, ast.List) and not st.value.elts:
             j = i + 1
-            elts = []
-            while j < len(stmts) and _is_append(stmts[j], x) and x not in _names_loaded(stmts[j].value.args[0]):
-                elts.append(stmts[j].value.args[0])
-                j += 1
+            elts, kept = [], []
+            while j < len(stmts):
+                s_ = stmts[j]
+                if _is_append(s_, x) and x not in _names_loaded(s_.value.args[0]):
+                    # the append may move up past independent simple statements (interleaved accumulators)
+                    if all(_can_hop(s_.value.args[0], k) for k in kept):
+                        elts.append(s_.value.args[0])
+                        j += 1
+                        continue
+                    break
+                if _simple_independent(s_, x):
+                    kept.append(s_)
+                    j += 1
+                    continue
+                break
             if elts:
                 new = ast.Assign(targets=[ast.Name(id=x, ctx=ast.Store())], value=ast.List(elts=elts, ctx=ast.Load()))
                 ast.copy_location(new, st)
                 ast.fix_missing_locations(new)
+                # trailing kept statements after the last moved append stay where they were
+                stmts[i:j] = [new] + kept
                 out.append(new)
-                i = j
+                i += 1
                 continue
         if x and isinstance(st.value, ast.Dict) and not st.value.keys:
             j = i + 1
@@ -98,6 +112,46 @@ def _block(stmts):
         out.append(st)
         i += 1
     return out
+
+
+def _pure(e):
+    return not any(isinstance(n, (ast.Call, ast.Await, ast.Yield, ast.YieldFrom, ast.NamedExpr)) for n in ast.walk(e))
+
+
+def _written_names(st):
+    """Names a simple statement binds or mutates (assignment targets' roots, append receivers)."""
+    out = set()
+    if isinstance(st, ast.Assign):
+        for t in st.targets:
+            for n in ast.walk(t):
+                if isinstance(n, ast.Name):
+                    out.add(n.id)
+    elif isinstance(st, ast.Expr) and isinstance(st.value, ast.Call) and isinstance(st.value.func, ast.Attribute):
+        for n in ast.walk(st.value.func.value):
+            if isinstance(n, ast.Name):
+                out.add(n.id)
+    return out
+
+
+def _simple_independent(st, x):
+    """A plain assignment to a name, or an append on another name, that does not mention x."""
+    if x in {n.id for n in ast.walk(st) if isinstance(n, ast.Name)}:
+        return False
+    if isinstance(st, ast.Assign) and len(st.targets) == 1 and isinstance(st.targets[0], ast.Name):
+        return True
+    if isinstance(st, ast.Expr) and isinstance(st.value, ast.Call) and isinstance(st.value.func, ast.Attribute) \
+            and st.value.func.attr == 'append' and isinstance(st.value.func.value, ast.Name) and len(st.value.args) == 1:
+        return True
+    return False
+
+
+def _can_hop(arg, k):
+    """May the evaluation of `arg` move before statement k?  Yes when k does not write what arg reads and
+    one of the two is free of calls (no reordering of two possibly effectful evaluations)."""
+    if _written_names(k) & _names_loaded(arg):
+        return False
+    kval = k.value if isinstance(k, ast.Assign) else k.value.args[0]
+    return _pure(arg) or _pure(kval)
 
 
 def _is_append(st, x):
